@@ -192,6 +192,12 @@ class Roles:
         body = M.body
         # timer: the user local of type WorkingRepeat
         timers = [l for l, ty in body.ltypes.items() if ty == "remapping_loop::WorkingRepeat" and body.dbg.get(l)]
+        if len(timers) > 1:
+            # bindings introduced by `?` (val) or by a match arm are assigned once; the state variable is assigned
+            # in several places
+            multi = [l for l in timers if len(body.defs.get(l, ())) > 1]
+            if len(multi) == 1:
+                timers = multi
         if len(timers) != 1:
             raise Unrecognised("timer-state-local-not-unique(%d)" % len(timers))
         self.timer = timers[0]
